@@ -109,6 +109,38 @@ theorem nothing_outlives_close (evs : List Ev) (s : St) (h : run {} evs = some s
 theorem counter_exact (evs : List Ev) (s : St) (h : run {} evs = some s) : s.counter = s.running.length :=
   (run_inv evs {} s inv_init h).count
 
+/-- finishing every running goroutine empties the wait group -/
+theorem finish_all (l : List Nat) : ∀ (s : St), s.running = l → s.counter = l.length →
+    ∃ s', run s (l.map .finish) = some s' ∧ s'.running = [] ∧ s'.counter = 0 ∧ s'.closed = s.closed ∧ s'.waiting = s.waiting := by
+  induction l with
+  | nil => intro s hr hc; exact ⟨s, rfl, hr, hc, rfl, rfl⟩
+  | cons t r ih =>
+    intro s hr hc
+    have hstep : step s (.finish t) = some { s with running := r, counter := r.length } := by
+      simp [step, hr, hc]
+    obtain ⟨s', h1, h2, h3, h4, h5⟩ := ih { s with running := r, counter := r.length } rfl rfl
+    exact ⟨s', by simp only [List.map_cons, run, hstep]; exact h1, h2, h3, h4, h5⟩
+
+theorem run_append (s : St) (a b : List Ev) (s' : St) (h : run s a = some s') : run s (a ++ b) = run s' b := by
+  induction a generalizing s with
+  | nil => simp only [run] at h; cases h; rfl
+  | cons e es ih =>
+    simp only [List.cons_append, run] at h ⊢
+    match hs : step s e with
+    | none => simp only [hs] at h; cases h
+    | some s1 => simp only [hs] at h ⊢; exact ih s1 h
+
+/-- The protocol cannot wedge: from every reachable state — whatever spawners and Close have done so far — once the
+    running goroutines finish, Close can be carried through and `wg.Wait` returns.  (That a running goroutine does
+    finish once `done` is closed is the harness's obligation, not the model's.) -/
+theorem close_can_always_return (evs : List Ev) (s : St) (h : run {} evs = some s) :
+    ∃ s', run s (s.running.map .finish ++ [.close, .beginWait, .waitReturns]) = some s' ∧ s'.returned = true := by
+  have hinv := run_inv evs {} s inv_init h
+  obtain ⟨s1, h1, hr, hc, _, _⟩ := finish_all s.running s rfl hinv.count
+  rw [run_append s _ _ s1 h1]
+  refine ⟨{ s1 with closed := true, waiting := true, returned := true }, ?_, rfl⟩
+  simp [run, step, hc]
+
 /-- without the guard (check and add in two steps) a goroutine is admitted after Wait has returned -/
 theorem unguarded_admits_after_wait :
     ∃ u, urun {} [.check 7, .close, .beginWait, .waitReturns, .add 7] = some u ∧ u.base.returned = true ∧ u.base.running = [7] := by
